@@ -7,7 +7,7 @@
 use std::{
     collections::HashMap,
     hash::{BuildHasher, Hash},
-    time::{Duration, Instant},
+    time::{Duration, Instant, SystemTime},
 };
 
 #[cfg(feature = "serde1")]
@@ -28,6 +28,16 @@ impl TimeUntil for Instant {
         }
         self.duration_since(Instant::now())
     }
+}
+
+/// The deadline as wall-clock time, for display in spans. Saturates at the last instant
+/// `humantime::format_rfc3339` can format (the end of year 9999) instead of overflowing or producing a
+/// value whose formatting fails.
+pub(crate) fn deadline_as_system_time(deadline: &Instant) -> SystemTime {
+    let max = SystemTime::UNIX_EPOCH + Duration::from_secs(253_402_300_799);
+    SystemTime::now()
+        .checked_add(deadline.time_until())
+        .map_or(max, |time| time.min(max))
 }
 
 /// Collection compaction; configurable `shrink_to_fit`.
